@@ -775,6 +775,39 @@ def check_property(prop, tier, registry, seed=0):
                 exec_fail.append(res)
         except Undecided as e:
             undecided.append(dict(unit='extra:' + getattr(hook, '__name__', 'hook'), reason=str(e), status='undecided', backend='execution'))
+    canary_report = None
+    if tier == 'thorough':
+        import canary as canary_mod
+        cans = []
+        for modname in spec.get('canaries', []):
+            cm = importlib.import_module('canaries.' + modname)
+            cans += [c for c in cm.CANARIES if c['unit'] in unit_names]
+        cres = canary_mod.run_canaries(cans, repo=REPO, cache=CACHE, workers=8)
+        surviving = [c for c in cres if c['status'] == 'ok' and not c['killed']]
+        inconcl = [c for c in cres if c['status'] != 'ok']
+        canary_report = dict(run=len(cres), killed=sum(1 for c in cres if c['killed']), surviving=[dict(id=c['id'], what=c['what']) for c in surviving],
+                             inconclusive=[dict(id=c['id'], reason=(c['reason'] or '')[:160]) for c in inconcl],
+                             sample=[dict(id=c['id'], what=c['what'], failed=c['failed'][:3]) for c in cres[:6]])
+        if surviving:
+            undecided.append(dict(unit='canaries', status='undecided', backend='canary',
+                                  reason='deliberate property-breaking edit(s) survived (a contract has become too weak to be believed): %s' % ', '.join(c['id'] for c in surviving)))
+        # proof stability: the same units under two other solver seeds must give the same verdicts
+        stab = []
+        for k in (1, 2):
+            for r0 in results:
+                if r0['backend'] == 'verus' and r0['status'] == 'ok':
+                    u = importlib.import_module(r0['module'])
+                    saved = getattr(u, 'VERUS_ARGS', ())
+                    u.VERUS_ARGS = tuple(saved) + ('--smt-option', 'smt.random_seed=%d' % (seed * 7 + k * 1000 + 1))
+                    try:
+                        r1 = run_unit(r0['module'], tier, cache=os.path.join(CACHE, 'stability%d' % k), probes=False)
+                    finally:
+                        u.VERUS_ARGS = saved
+                    same = r1['status'] == 'ok' and {o['id']: o['status'] for o in r1['obligations']} == {o['id']: o['status'] for o in r0['obligations']}
+                    stab.append(dict(unit=r0['unit'], seed=seed * 7 + k * 1000 + 1, same_verdicts=same))
+                    if not same:
+                        undecided.append(dict(unit=r0['unit'], status='undecided', backend='verus', reason='verdicts change with the solver seed (unstable proof) in unit %s' % r0['unit']))
+        canary_report['stability'] = stab
     known_hit = [o for o in failed if o['id'] in known_ids]
     new = [o for o in failed if o['id'] not in known_ids]
     os.makedirs(EVID, exist_ok=True)
@@ -861,6 +894,7 @@ def check_property(prop, tier, registry, seed=0):
                           unplaceable=sum(r.get('probes', {}).get('unplaceable', 0) for r in results)),
         unverified_parts_of_property=spec.get('unverified', []),
         extra_checks=extra_checks,
+        canaries=canary_report,
         extraction='functions are re-extracted from %s on every run by vc/extract.py; rules applied are listed per function' % REPO,
     )
     ev = dict(property_id=prop, tier=tier, seed=seed, level='proof', coverage=cov,
